@@ -1007,6 +1007,7 @@ def sizes(ctx, cs):
 # What a decoder may do to a value it has read, between the read and the value it returns.  Anything else is an
 # unreviewed transformation: if it maps two wire values to one in-memory value (normalisation, canonicalisation, case
 # folding, trimming, clamping), re-encoding no longer reproduces the received bytes and signatures over them break.
+CONVERSION_REVIEWED = {}
 PLUMBING = re.compile(
     r"ops::try_trait::(Try|FromResidual)|^core::result::Result::(map_err|and_then|ok|expect|unwrap|map|ok_or|ok_or_else|is_ok|is_err)$|"
     r"^core::option::Option::(ok_or|ok_or_else|map|expect|unwrap|is_some|is_none|as_ref)$|"
@@ -1016,7 +1017,8 @@ PLUMBING = re.compile(
     r"^alloc::(vec::Vec|collections::btree::(map::BTreeMap|set::BTreeSet)|collections::vec_deque::VecDeque|string::String)::"
     r"(new|with_capacity|push|push_str|insert|extend|extend_from_slice|len|is_empty|capacity|as_slice|as_mut_slice|as_str|as_bytes|into_bytes|into_boxed_slice|iter)$|"
     r"^core::slice::(len|is_empty|contains|iter|to_vec|starts_with)$|^core::str::(len|is_empty|as_bytes)$|"
-    r"^core::panicking::|^core::fmt::|^alloc::fmt::|^log::|::is_eof$|^core::cmp::|^core::hint::")
+    r"^core::panicking::|^core::fmt::|^alloc::fmt::|^log::|::is_eof$|^core::cmp::|^core::hint::|"
+    r"^std::io::Read::(take|by_ref)$|^std::io::(error::)?Error::kind$|^<std::io::(error::)?ErrorKind as |^<std::io::Take<.*> as std::io::Read>::")
 CONVERSION = re.compile(
     r" as core::convert::(From|TryFrom|Into|TryInto)<|^<T as core::convert::(Into|TryInto)<U>>::|"
     r"^core::num::(from_be_bytes|from_le_bytes|from_ne_bytes)$|^alloc::string::String::(from_utf8|from_utf8_lossy_NOT)$|^core::str::converts::from_utf8$|"
@@ -1027,6 +1029,7 @@ EXTERNAL_OK = {
     "git2::oid::Oid::from_bytes": "wraps the 20 bytes",
     "bloomy::bloom::BloomFilter::hashes": "reads a parameter of the filter (used in a size check), not a transformation of the returned value",
     "core::net::ip_addr::IpAddr::V4": "enum constructor", "core::net::ip_addr::IpAddr::V6": "enum constructor",
+    "ec25519::ed25519::Signature::new": "wraps the 64 bytes", "ec25519::ed25519::PublicKey::new": "wraps the 32 bytes",
     "radicle_node::bounded::BoundedVec::push": "appends the element unchanged (fails when the bound is exceeded)",
     "radicle_node::bounded::BoundedVec::with_capacity": "allocation", "radicle_node::bounded::BoundedVec::capacity": "the bound",
 }
@@ -1057,7 +1060,7 @@ def _is_constructor(db, callee, depth=0):
             return all(simple(x, d + 1) for x in e[2])
         if k == "call":
             nm = e[1].get("n") or e[1].get("dn") or ""
-            if PLUMBING.search(nm) or CONVERSION.search(nm):
+            if PLUMBING.search(nm) or CONVERSION.search(nm) or nm in EXTERNAL_OK:
                 return all(simple(x, d + 1) for x in e[2])
             c2 = db.one("^" + re.escape(nm) + "$") if nm else None
             if c2 is not None and c2 is not callee and _is_constructor(db, c2, depth + 1):
@@ -1135,8 +1138,18 @@ def transforms(ctx, cs, closure):
                 continue
             seen_keys.add(k)
             n += 1
-            if PLUMBING.search(nm) or PLUMBING.search(dn) or CONVERSION.search(nm) or CONVERSION.search(dn):
-                ctx.held(k, "%s::decode passes decoded data through %s (plumbing / conversion)" % (short_t(key), cfg.short(nm)), rules.where(fd, bb), fn=fd)
+            if PLUMBING.search(nm) or PLUMBING.search(dn):
+                ctx.held(k, "%s::decode passes decoded data through %s (plumbing)" % (short_t(key), cfg.short(nm)), rules.where(fd, bb), fn=fd)
+                continue
+            if CONVERSION.search(nm) or CONVERSION.search(dn):
+                # a conversion implemented in the workspace must itself be a plain constructor: a hand-written `From` can normalise
+                conv = db.one("^" + re.escape(c.get("rn") or nm) + "$") if (c.get("rn") or nm).startswith("<radicle") else None
+                if conv is None or _is_constructor(db, conv) or (c.get("rn") or nm) in CONVERSION_REVIEWED:
+                    ctx.held(k, "%s::decode passes decoded data through the conversion %s" % (short_t(key), cfg.short(nm)), rules.where(fd, bb), fn=fd)
+                else:
+                    ctx.violated(k, "%s::decode converts decoded data with %s, which is not a plain constructor (it computes on the value): if it "
+                                    "normalises, two wire encodings decode to one value and the message does not re-encode to the bytes received"
+                                 % (short_t(key), cfg.short(c.get("rn") or nm)), rules.where(conv), fn=conv)
                 continue
             if nm in EXTERNAL_OK:
                 ctx.held(k, "%s::decode passes decoded data through %s: %s" % (short_t(key), cfg.short(nm), EXTERNAL_OK[nm]), rules.where(fd, bb), fn=fd)
